@@ -17,8 +17,9 @@ sufficient-statistic and regularity nodes") and of the definitions `VariablesDAG
 
 Modelled kinds of definitions: variables without dependencies (`DataVariable`, `Hyperparameter`, …), `LinkedVariable`
 (its dependencies = the parameter names of its function), individual / population latent variables with a prior of
-parameters `(mean, std)`.  NOT modelled: `ModelParameter` (its dedicated sufficient-statistic variables are added through the
-same `update`), the mixture prior's special case for `sources` (same names, other functions).  Import-free.
+parameters `(mean, std)`.  `ModelParameter` (no dependency of its own; the dedicated sufficient-statistic variables of its `Collect` are added through the
+same `update` as the companions of a latent variable).  NOT modelled: the mixture prior's special case for `sources`
+(same names, other functions).  Import-free.
 -/
 namespace LeaspyVerif.Specs
 
@@ -27,6 +28,8 @@ inductive Def where
   | link (deps : List String)
   | ind (mean std : String)
   | pop (mean std : String)
+  /-- `ModelParameter` with the dedicated sufficient-statistic variables of its `Collect` (name, dependencies), in dict order -/
+  | param (dedicated : List (String × List String))
   deriving Repr, DecidableEq
 
 def forbiddenNames : List String :=
@@ -54,11 +57,13 @@ def ownDeps : Def → List String
   | .link deps => deps
   | .ind _ _ => []
   | .pop _ _ => []
+  | .param _ => []
 
 /-- `get_regularity_variables(name)` as (name, dependencies) in dict order -/
 def companions (name : String) : Def → List (String × List String)
   | .ind m s => [(regulIndName name, [name, m, s]), (regulName name, [regulIndName name])]
   | .pop m s => [(regulName name, [name, m, s])]
+  | .param ded => ded
   | _ => []
 
 /-- the name checks of `__setitem__` -/
